@@ -397,6 +397,13 @@ def map_history(chk, program):
             def step(name, pgn, mid, src, nm, want_ret, check):
                 r = dp.feed(pgn, mid, src=src, name_int=nm)
                 problems = check(r)
+                ad = r.get('add_data')
+                if r['status'] == 'returned' and ad is not None:
+                    # the addressing handed to add_data is that of this message: source, destination 255, priority 3 (the stand-ins of DecodePath.feed)
+                    for key, want_v in (('src', src), ('dest', 255), ('priority', 3)):
+                        v_ = ad.get(key)
+                        if key in ad and not (isinstance(v_, A.AInt) and v_.v == want_v):
+                            problems.append(f"add_data receives {key}={v_!r} for a message with {key} {want_v}")
                 if not excl and (r['status'] == 'returned') != want_ret:
                     problems.append(f"message {'withheld' if want_ret else 'returned'}")
                 if excl and pgn == CP and r['status'] == 'returned':
